@@ -25,7 +25,8 @@ EXPLANATION = (
     "its format plus the appended point; enumeration/binary/reference writers emit their delimiters; (R6) the four "
     "enumeration item look-ups decide by whole-string equality; (R7) in the files that read literals a severity already raised is "
     "lowered only at reviewed sites or under a guard that the severity is exactly SEVERITY_INCOMPLETE (C03's relaxation rule and table). (R1, generalised) a reader that converts with a C library function (strtod, strtol, ...) tests both the end pointer and the range indication (errno / isinf / HUGE_VAL) before it accepts the value; a conversion that cannot report failure (atof, atoi) is a violation. (R7) a failed conversion of an optional attribute is not forgiven. Not decided: equality of the hand-written scanners' "
-    "accepted language with the ISO grammar, exact values, string escapes.")
+    "accepted language with the ISO grammar, exact values, string escapes."
+    " (R8) a linear search whose loop condition is `i < B && <no match>` and the later not-found test on i use the same bound expression B (SDAI_Enum / SDAI_LOGICAL ReadEnum and set_value, STEPcomplex::Replicate): otherwise an unknown token is silently read as the entry at the last index.")
 
 READERS = {"ReadInteger": "integer", "ReadReal": "real", "ReadNumber": "number"}
 
@@ -388,6 +389,67 @@ def r7_failure_not_forgiven(prog, res, sev):
     res.floor("R7", "severity relaxations in the literal readers", n, 6)
 
 
+def r8_search_bound_agrees(prog, res):
+    """A linear search `while( i < B && <no match at i> ) ++i;` reports `not found` through a later test of i against a bound.  The two
+    bounds must be the same expression: with a smaller loop bound the not-found test can never hold and the last index is taken for a
+    match (every unknown LOGICAL token read as .U.), with a larger one the search runs past the table."""
+    def conj(c, out):
+        c = strip(c)
+        while c is not None and c["k"] == "Paren" and c.get("ch"):
+            c = strip(c["ch"][0])
+        if c is not None and c["k"] == "Binary" and c.get("op") == "&&":
+            conj(c["ch"][0], out)
+            conj(c["ch"][1], out)
+        elif c is not None:
+            out.append(c)
+
+    def bare(n):
+        n = strip(n)
+        while n is not None and n["k"] in ("Paren", "Cast") and n.get("ch") and "val" not in n:
+            n = strip(n["ch"][0])
+        return n
+    n = 0
+    for f in prog.all_functions():
+        if f.component == "test":
+            continue
+        for w in f.walk():
+            if w["k"] not in ("While", "For"):
+                continue
+            cond = w["ch"][0] if w["k"] == "While" else w["ch"][1]
+            if cond is None:
+                continue
+            cs = []
+            conj(cond, cs)
+            if len(cs) < 2:
+                continue        # a plain counting loop has no `not found` outcome
+            for c in cs:
+                if not (c["k"] == "Binary" and c.get("op") in ("<", "<=")):
+                    continue
+                v = bare(c["ch"][0])
+                if v is None or v["k"] != "Ref" or v.get("dk") not in ("local", "param"):
+                    continue
+                bound = expr_str(c["ch"][1])
+                last = max(x["l"] for x in walk(w))
+                # the next store to the index after the loop ends the region in which it still holds the search result
+                stop = min([x["l"] for x in f.walk() if x["l"] > last and
+                            ((x["k"] == "Assign" and bare(x["ch"][0]) is not None and bare(x["ch"][0]).get("d") == v["d"]))] or [10 ** 9])
+                for x in f.walk():
+                    if x["k"] == "Binary" and x.get("op") in ("==", "!=", ">=", "<") and last < x["l"] <= stop:
+                        a, b = bare(x["ch"][0]), bare(x["ch"][1])
+                        other = x["ch"][1] if a is not None and a.get("d") == v["d"] else x["ch"][0] if b is not None and b.get("d") == v["d"] else None
+                        if other is None:
+                            continue
+                        n += 1
+                        ok = expr_str(other) == bound
+                        res.add("R8.search_bound_agrees", "R8|%s|%s|%s" % (f.relfile(), f.name, v["n"]), f.where(x), ok,
+                                "the search over `%s` and its not-found test use the same bound `%s`" % (v["n"], bound) if ok else
+                                "the search loop at line %s runs while `%s %s %s`, but `not found` is tested as `%s %s %s`: %s" %
+                                (w["l"], v["n"], c["op"], bound, v["n"], x["op"], expr_str(other),
+                                 "the test can never hold after the loop, so a token that matches no entry is taken for the entry at the loop's "
+                                 "last index and no error is raised"))
+    res.floor("R8.search_bound_agrees", "searches with a not-found test", n, 4)
+
+
 def run(prog, res, tier):
     sev = sev_enum(prog)
     if sev is None:
@@ -399,3 +461,4 @@ def run(prog, res, tier):
     r4_writer_tokens(prog, res)
     r6_enum_item_match(prog, res)
     r7_failure_not_forgiven(prog, res, sev)
+    r8_search_bound_agrees(prog, res)
